@@ -61,6 +61,10 @@ type Input struct {
 	Exps   []Exp   `json:"exps"`
 	Trials []Trial `json:"trials"`
 	Target int     `json:"target"` // experiment whose suggestion is reconciled
+	// a second sync by the same controller process: after the first request the early-stopped trials of the target get
+	// their observation (the trial controller writes it at its next reconcile), one more suggestion is requested, and the
+	// SECOND request is the one judged (what an earlier request saw must not matter)
+	Late bool `json:"late,omitempty"`
 }
 
 type c09 struct{}
@@ -150,6 +154,7 @@ func (c09) Gen(r *rand.Rand, i, n int) any {
 	}
 	r.Shuffle(len(in.Trials), func(a, b int) { in.Trials[a], in.Trials[b] = in.Trials[b], in.Trials[a] })
 	in.Target = r.Intn(len(in.Exps))
+	in.Late = r.Intn(4) == 0
 	return in
 }
 
@@ -218,6 +223,7 @@ func cond(t trialsv1beta1.TrialConditionType) trialsv1beta1.TrialCondition {
 
 func (c09) Run(input any) kit.Case {
 	in := input.(Input)
+	trs := append([]Trial(nil), in.Trials...) // the trials as they are when the judged request is made (late observations)
 	ctx := context.TODO()
 	s := runtime.NewScheme()
 	_ = apis.AddToScheme(s)
@@ -348,6 +354,35 @@ func (c09) Run(input any) kit.Case {
 		}
 		cap.sug, cap.es = nil, nil
 		_, _ = rec.Reconcile(ctx, reconcile.Request{NamespacedName: key})
+		if in.Late && cap.sug != nil {
+			for i := range trs {
+				t := &trs[i]
+				if t.Owner != in.Target || !t.ES || t.Obs {
+					continue
+				}
+				tr := &trialsv1beta1.Trial{}
+				if err := cl.Get(ctx, types.NamespacedName{Name: t.Name, Namespace: te.NS}, tr); err != nil {
+					panic(err)
+				}
+				tr.Status.Observation = &commonv1beta1.Observation{Metrics: []commonv1beta1.Metric{{Name: "acc", Min: "0.5", Max: "0.5", Latest: "0.5"}}}
+				if err := cl.Status().Update(ctx, tr); err != nil {
+					panic(err)
+				}
+				t.Obs = true
+			}
+			sg := &suggestionsv1beta1.Suggestion{}
+			if err := cl.Get(ctx, key, sg); err != nil {
+				panic(err)
+			}
+			te.Count = int(sg.Status.SuggestionCount)
+			te.Extra = 1
+			sg.Spec.Requests = int32(te.Count + te.Extra)
+			if err := cl.Update(ctx, sg); err != nil {
+				panic(err)
+			}
+			cap.sug, cap.es = nil, nil
+			_, _ = rec.Reconcile(ctx, reconcile.Request{NamespacedName: key})
+		}
 	})
 	if pan != "" {
 		c.GoViol = "panic: " + pan
@@ -371,7 +406,7 @@ func (c09) Run(input any) kit.Case {
 	})
 	tnames := kit.NewIntern()
 	ti := -1
-	trialsC := kit.ListOf(in.Trials, func(t Trial) string {
+	trialsC := kit.ListOf(trs, func(t Trial) string {
 		ti++
 		return fmt.Sprintf("Build_strial %d%%nat %d%%nat %s %d%%nat %s %s %s", nsid.ID(in.Exps[t.Owner].NS), tnames.ID(t.Name), lab(trialLabels[ti]), t.Owner, kit.Bool(t.MU), kit.Bool(t.ES), kit.Bool(t.Obs))
 	})
@@ -414,7 +449,7 @@ func (c09) Run(input any) kit.Case {
 			}
 		}
 	}
-	for _, t := range in.Trials {
+	for _, t := range trs {
 		if t.Owner == in.Target && (t.MU || (t.ES && !t.Obs)) {
 			skipped = true
 		}
@@ -422,6 +457,9 @@ func (c09) Run(input any) kit.Case {
 	c.Nontrivial = shares && skipped
 	if shares {
 		c.Tags = append(c.Tags, "shares-name-or-label")
+	}
+	if in.Late {
+		c.Tags = append(c.Tags, "second-sync-after-late-observations")
 	}
 	if skipped {
 		c.Tags = append(c.Tags, "has-skipped-trial")
